@@ -456,14 +456,14 @@ theorem MapInv_step {s s' : State} {a} (hs : step? s a = some s') (h : MapInv s)
 
 /-- a waiter slot right after `spawnPath` / `spawnCached` / `spawnHandle` -/
 def Fresh (s : State) (t : Waiter) : Prop :=
-  (t.pc = .peek ∧ t.h = none ∧ t.kind ≠ .handle) ∨
+  (t.pc = .peek ∧ t.h = none ∧ t.kind ≠ .handle ∧ s.userDropped = false) ∨
   (t.pc = .loadActive ∧ t.kind = .handle ∧ ∃ i, t.h = some i ∧ i < s.nW)
 
 theorem stepM_frameT {s s1 : State} {b} (h : stepM s b = some s1) (j : Nat) :
     (s1.t j = s.t j ∨ (j = s.nT ∧ Fresh s (s1.t j))) ∧ s.nT ≤ s1.nT := by
   cases b <;> simp only [stepM] at h <;> split at h <;> simp at h <;> subst h <;> simp [Fresh]
   all_goals (by_cases hj : j = s.nT <;> simp [hj])
-  exact Or.inr (by assumption)
+  all_goals first | exact Or.inr (by assumption) | (right; simpa using ‹¬s.userDropped = true›)
 
 theorem step?_frameT {s s' : State} {a} (h : step? s a = some s') (j : Nat) :
     (s'.t j = s.t j ∨ (∃ b, a = .t j b ∧ TStep s s' (s.t j) (s'.t j)) ∨ (j = s.nT ∧ Fresh s (s'.t j)))
@@ -492,6 +492,69 @@ theorem step?_frameT {s s' : State} {a} (h : step? s a = some s') (j : Nat) :
     · exact Or.inr (Or.inr (by simpa using hr))
 
 
+/-! ## unallocated slots stay untouched -/
+
+theorem step?_tailW {s s' : State} {a} (h : step? s a = some s') (i : Nat) (hi : s'.nW ≤ i) :
+    (s'.w i).pc = (s.w i).pc := by
+  simp only [step?, Option.map_eq_some_iff] at h
+  obtain ⟨s1, h1, rfl⟩ := h
+  rw [(Same_settle s1 i).1]
+  simp only [settle_nW] at hi
+  cases a with
+  | w i0 b =>
+    simp only [stepRaw, stepW] at h1
+    (repeat' split at h1) <;> simp_all <;> subst h1
+    · rw [(Same_removeKey _ _ i).1]
+      have : i ≠ i0 := by simp at hi; omega
+      simp [this]
+    · have : i ≠ i0 := by simp at hi; omega
+      simp [this]
+  | t j b =>
+    simp only [stepRaw, stepT] at h1
+    split at h1
+    · (repeat' split at h1) <;> simp_all <;> subst h1 <;> simp_all
+      all_goals (first | omega | (split <;> first | omega | simp_all))
+    · simp at h1
+  | m b =>
+    cases b <;> simp only [stepRaw, stepM] at h1 <;> split at h1 <;> simp at h1 <;> subst h1
+    · rfl
+    · rfl
+    · rfl
+    · rw [(Same_removeKey _ _ i).1]
+    · rfl
+    · simp only [setW_w]; split <;> simp_all
+
+theorem step?_tailT {s s' : State} {a} (h : step? s a = some s') (j : Nat) (hj : s'.nT ≤ j) :
+    s'.t j = s.t j := by
+  rcases step?_frameT h j with ⟨hh | ⟨b, rfl, _⟩ | ⟨he, _⟩, hn⟩
+  · exact hh
+  · -- the acting waiter is allocated
+    simp only [step?, Option.map_eq_some_iff, stepRaw] at h
+    obtain ⟨s1, h1, rfl⟩ := h
+    simp only [settle_nT] at hj
+    have := stepT_nT h1
+    simp only [stepT] at h1
+    split at h1
+    · omega
+    · simp at h1
+  · -- a spawn allocates slot `s.nT` and bumps the counter
+    simp only [step?, Option.map_eq_some_iff] at h
+    obtain ⟨s1, h1, rfl⟩ := h
+    simp only [settle_nT, settle_t] at hj ⊢
+    cases a with
+    | w i0 b => rw [(stepW_t h1).1]
+    | t j0 b =>
+      by_cases hjj : j = j0
+      · have := stepT_nT h1
+        simp only [stepRaw, stepT] at h1
+        split at h1
+        · omega
+        · simp at h1
+      · exact (stepT_other h1 j hjj).1
+    | m b =>
+      cases b <;> simp only [stepRaw, stepM] at h1 <;> split at h1 <;> simp at h1 <;> subst h1
+      all_goals first | rfl | (simp at hj; omega) | simp
+
 /-! ## the global invariant -/
 
 /-- shape of a finished call: a path, or (cached_path) nothing, or (path / handle) an error -/
@@ -508,6 +571,8 @@ structure Inv (s : State) : Prop where
   early : ∀ j, (s.t j).pc = .contains → (s.t j).kind = .cached
   shape : ∀ j, (s.t j).pc = .done → resShape (s.t j)
   mp : MapInv s
+  tailW : ∀ i, s.nW ≤ i → (s.w i).pc = .done
+  tailT : ∀ j, s.nT ≤ j → (s.t j).pc = .done
 
 theorem Inv_init : Inv State.init := by
   constructor <;> intros <;>
@@ -582,6 +647,12 @@ theorem Inv_step {s s' : State} {a} (h : step? s a = some s') (hi : Inv s) : Inv
         exact (hi.needs j (by simp [h1])).2
     · rcases hh with ⟨h1, _⟩ | ⟨h1, _⟩ <;> simp [h1] at hd
   · exact MapInv_step h hi.mp
+  · intro i hge
+    rw [step?_tailW h i hge]
+    exact hi.tailW i (Nat.le_trans (step?_frame h 0).2 hge)
+  · intro j hge
+    rw [step?_tailT h j hge]
+    exact hi.tailT j (Nat.le_trans (step?_frameT h 0).2 hge)
 
 theorem Inv_stepTotal {s : State} (a : Action) (hi : Inv s) : Inv (step s a) := by
   unfold step
@@ -707,5 +778,276 @@ theorem progress (acts : List Action) {s : State} (hinv : Inv s) {i g : Nat} (hi
             | t _ _ => simp
             | m _ => simp
           omega
+
+
+/-! ## the manager value is gone (`alive = false`): stable, and every worker runs to its end -/
+
+theorem alive_false_iff (s : State) :
+    s.alive = false ↔ s.userDropped = true ∧ (∀ i, i < s.nW → (s.w i).pc.holds = false) ∧
+      (∀ j, j < s.nT → (s.t j).holds = false) := by
+  simp only [State.alive, Bool.or_eq_false_iff, Bool.not_eq_false', List.any_eq_false, List.mem_range,
+    Bool.not_eq_true, and_assoc]
+
+theorem wNext_holds_dead {x y : Worker} {a} (h : wNext x false a = some y) (hx : x.pc.holds = false) :
+    y.pc.holds = false := by
+  wcases x a h <;> simp_all [WPc.holds]
+
+theorem step?_ud {s s' : State} {a} (h : step? s a = some s') (hu : s.userDropped = true) :
+    s'.userDropped = true := by
+  simp only [step?, Option.map_eq_some_iff] at h
+  obtain ⟨s1, h1, rfl⟩ := h
+  simp only [settle_ud]
+  cases a with
+  | w i0 b =>
+    simp only [stepRaw, stepW] at h1
+    (repeat' split at h1) <;> simp_all <;> subst h1 <;> simp [hu]
+  | t j b =>
+    simp only [stepRaw, stepT] at h1
+    split at h1
+    · (repeat' split at h1) <;> simp_all <;> subst h1 <;> simp [hu]
+    · simp at h1
+  | m b =>
+    cases b <;> simp only [stepRaw, stepM] at h1 <;> split at h1 <;> simp at h1 <;> subst h1 <;> simp_all
+
+/-- once the manager value is gone it stays gone: nobody can acquire a reference any more -/
+theorem dead_step {s s' : State} {a} (h : step? s a = some s') (hi : Inv s) (hd : s.alive = false) :
+    s'.alive = false := by
+  have hi' := Inv_step h hi
+  obtain ⟨hu, hw, ht⟩ := (alive_false_iff s).1 hd
+  refine (alive_false_iff s').2 ⟨step?_ud h hu, ?_, ?_⟩
+  · intro i _
+    have hold : (s.w i).pc.holds = false := by
+      by_cases hlt : i < s.nW
+      · exact hw i hlt
+      · rw [hi.tailW i (Nat.le_of_not_lt hlt)]; rfl
+    rcases (step?_frame h i).1 with hh | ⟨b, y, _, _, h3, h4⟩ | ⟨_, _, k, _, h4⟩
+    · rw [hh.1]; exact hold
+    · rw [h4.1]; rw [hd] at h3; exact wNext_holds_dead h3 hold
+    · rw [h4.1]; rfl
+  · intro j _
+    have hold : (s.t j).holds = false := by
+      by_cases hlt : j < s.nT
+      · exact ht j hlt
+      · simp [Waiter.holds, hi.tailT j (Nat.le_of_not_lt hlt)]
+    rcases (step?_frameT h j).1 with hh | ⟨b, _, hh⟩ | ⟨_, hh⟩
+    · rw [hh]; exact hold
+    · simp only [Waiter.holds, Bool.and_eq_false_imp, bne_iff_ne, ne_eq, bne_eq_false_iff_eq] at hold ⊢
+      intro hk
+      rw [hh.kind] at hk
+      exact absurd (hold hk) hh.notdone
+    · rcases hh with ⟨_, _, _, h4⟩ | ⟨_, h2, _⟩
+      · rw [hu] at h4; simp at h4
+      · simp [Waiter.holds, h2]
+
+theorem exitRank_zero {pc : WPc} (h : pc.exitRank = 0) : pc = .done := by
+  cases pc <;> simp [WPc.exitRank] at h ⊢
+
+theorem exitRank_le_of_not_holds {pc : WPc} (h : pc.holds = false) : pc.exitRank ≤ 4 := by
+  cases pc <;> simp [WPc.exitRank, WPc.holds] at h ⊢
+
+/-- a finished worker never moves again -/
+theorem done_step {s : State} (a : Action) {i : Nat} (hi : i < s.nW) (hd : (s.w i).pc = .done) :
+    ((step s a).w i).pc = .done ∧ ((step s a).w i).sh = (s.w i).sh := by
+  unfold step
+  cases h : step? s a with
+  | none => simp [hd]
+  | some s' =>
+    simp only [Option.getD_some]
+    rcases (step?_frame h i).1 with hh | ⟨b, y, _, _, h3, _⟩ | ⟨h1, _⟩
+    · exact ⟨hh.1.trans hd, hh.2.1⟩
+    · exact absurd hd (wNext_done h3)
+    · omega
+
+/-- **Ranking argument for the exit.**  With the manager value gone, `exitRank` effective steps of worker
+`i` take it to `done`, whatever everybody else does. -/
+theorem exit_progress (acts : List Action) {s : State} (hinv : Inv s) (hd : s.alive = false) {i : Nat}
+    (hi : i < s.nW) (hr : (s.w i).pc.exitRank ≤ effW i s acts) : ((run s acts).w i).pc = .done := by
+  induction acts generalizing s with
+  | nil =>
+    simp only [effW, Nat.le_zero_eq] at hr
+    exact exitRank_zero hr
+  | cons a as ih =>
+    simp only [run, List.foldl_cons]
+    cases hs : step? s a with
+    | none =>
+      have hst : step s a = s := by simp [step, hs]
+      rw [hst]
+      refine ih hinv hd hi ?_
+      simp only [effW, hs, Option.isSome_none, hst] at hr
+      cases a <;> simp_all
+    | some s' =>
+      have hst : step s a = s' := by simp [step, hs]
+      rw [hst]
+      have hinv' := Inv_step hs hinv
+      have hd' := dead_step hs hinv hd
+      have hi' : i < s'.nW := Nat.lt_of_lt_of_le hi (step?_frame hs i).2
+      by_cases hself : ∃ b, a = .w i b
+      · obtain ⟨b, rfl⟩ := hself
+        obtain ⟨_, y, h1, h2⟩ := step?_self hs
+        rw [hd] at h1
+        have hrank := wNext_exitRank h1
+        simp only [effW, hs, Option.isSome_some, and_self, if_true, hst] at hr
+        refine ih hinv' hd' hi' ?_
+        rw [h2.1]; omega
+      · have hsame := step?_notself hs hi (fun b e => hself ⟨b, e⟩)
+        refine ih hinv' hd' hi' ?_
+        rw [hsame.1]
+        have : effW i s (a :: as) = effW i s' as := by
+          simp only [effW, hst]
+          cases a with
+          | w i' b =>
+            have : i' ≠ i := fun e => hself ⟨b, by rw [e]⟩
+            simp [this]
+          | t _ _ => simp
+          | m _ => simp
+        omega
+
+/-! ## a caller's own program is sequential: ranking on its program counter -/
+
+def TPc.rank : TPc → Nat
+  | .peek => 8
+  | .contains => 7
+  | .ensure => 6
+  | .loadActive => 5
+  | .lockCheck => 4
+  | .waiting _ => 3
+  | .reload => 2
+  | .readErr => 1
+  | .done => 0
+
+theorem afterEnsure_rank (t : Waiter) (i : Nat) : (afterEnsure t i).pc.rank ≤ 5 := by
+  rcases afterEnsure_pc t i with h | h <;> simp [h.1, TPc.rank]
+
+theorem stepT_rank {s s1 : State} {j b} (h : stepT s j b = some s1) :
+    (s1.t j).pc.rank < (s.t j).pc.rank := by
+  simp only [stepT] at h
+  split at h
+  · (repeat' split at h) <;> simp_all <;> subst h <;> simp_all [Waiter.finish]
+    all_goals first
+      | (simp [TPc.rank]; done)
+      | (split <;> simp [TPc.rank]; done)
+      | exact Nat.lt_of_le_of_lt (afterEnsure_rank _ _) (by simp [TPc.rank])
+  · simp at h
+
+
+theorem rank_zero {pc : TPc} (h : pc.rank = 0) : pc = .done := by
+  cases pc <;> simp [TPc.rank] at h ⊢
+
+/-- an enabled step of caller `j` itself lowers its rank; any other enabled action leaves an allocated
+caller untouched -/
+theorem step?_selfT {s s' : State} {j b} (h : step? s (.t j b) = some s') :
+    (s'.t j).pc.rank < (s.t j).pc.rank := by
+  simp only [step?, Option.map_eq_some_iff, stepRaw] at h
+  obtain ⟨s1, h1, rfl⟩ := h
+  simpa using stepT_rank h1
+
+theorem step?_notselfT {s s' : State} {a} (h : step? s a = some s') {j : Nat} (hj : j < s.nT)
+    (hne : ∀ b, a ≠ .t j b) : s'.t j = s.t j := by
+  rcases (step?_frameT h j).1 with hh | ⟨b, h1, _⟩ | ⟨h1, _⟩
+  · exact hh
+  · exact absurd h1 (hne b)
+  · omega
+
+theorem caller_progress (acts : List Action) {s : State} {j : Nat} (hj : j < s.nT)
+    (hr : (s.t j).pc.rank ≤ effT j s acts) : ((run s acts).t j).pc = .done := by
+  induction acts generalizing s with
+  | nil =>
+    simp only [effT, Nat.le_zero_eq] at hr
+    exact rank_zero hr
+  | cons a as ih =>
+    simp only [run, List.foldl_cons]
+    cases hs : step? s a with
+    | none =>
+      have hst : step s a = s := by simp [step, hs]
+      rw [hst]
+      refine ih hj ?_
+      simp only [effT, hs, Option.isSome_none, hst] at hr
+      cases a <;> simp_all
+    | some s' =>
+      have hst : step s a = s' := by simp [step, hs]
+      rw [hst]
+      have hj' : j < s'.nT := Nat.lt_of_lt_of_le hj (step?_frameT hs j).2
+      by_cases hself : ∃ b, a = .t j b
+      · obtain ⟨b, rfl⟩ := hself
+        have hrank := step?_selfT hs
+        simp only [effT, hs, Option.isSome_some, and_self, if_true, hst] at hr
+        refine ih hj' ?_
+        omega
+      · have hsame := step?_notselfT hs hj (fun b e => hself ⟨b, e⟩)
+        refine ih hj' ?_
+        rw [hsame]
+        have : effT j s (a :: as) = effT j s' as := by
+          simp only [effT, hst]
+          cases a with
+          | t j' b =>
+            have : j' ≠ j := fun e => hself ⟨b, by rw [e]⟩
+            simp [this]
+          | w _ _ => simp
+          | m _ => simp
+        omega
+
+/-- the caller's next action is enabled unless it is waiting for a notification that has not come yet -/
+theorem caller_enabled {s : State} (hinv : Inv s) {j : Nat} (hj : j < s.nT) (hnd : (s.t j).pc ≠ .done)
+    (hwoken : ∀ g i, (s.t j).pc = .waiting g → (s.t j).h = some i → (s.w i).sh.gen ≠ g) :
+    ∃ b, (step? s (.t j b)).isSome = true := by
+  have hneeds := hinv.needs j
+  cases hpc : (s.t j).pc with
+  | peek =>
+    refine ⟨.peek, ?_⟩
+    simp only [step?, stepRaw, stepT, hj, if_true, hpc, Option.isSome_map]
+    (repeat' split) <;> rfl
+  | contains =>
+    refine ⟨.contains, ?_⟩
+    simp only [step?, stepRaw, stepT, hj, if_true, hpc, Option.isSome_map]
+    (repeat' split) <;> rfl
+  | ensure =>
+    refine ⟨.ensure, ?_⟩
+    simp only [step?, stepRaw, stepT, hj, if_true, hpc, Option.isSome_map]
+    (repeat' split) <;> rfl
+  | loadActive =>
+    obtain ⟨i, hi⟩ := Option.isSome_iff_exists.1 (hneeds (by simp [hpc])).1
+    refine ⟨.loadActive, ?_⟩
+    simp only [step?, stepRaw, stepT, hj, if_true, hpc, hi, Option.isSome_map]
+    (repeat' split) <;> rfl
+  | lockCheck =>
+    obtain ⟨i, hi⟩ := Option.isSome_iff_exists.1 (hneeds (by simp [hpc])).1
+    refine ⟨.lockCheck, ?_⟩
+    simp only [step?, stepRaw, stepT, hj, if_true, hpc, hi, Option.isSome_map]
+    (repeat' split) <;> rfl
+  | waiting g =>
+    obtain ⟨i, hi⟩ := Option.isSome_iff_exists.1 (hneeds (by simp [hpc])).1
+    refine ⟨.awake, ?_⟩
+    have := hwoken g i hpc hi
+    simp only [step?, stepRaw, stepT, hj, if_true, hpc, hi, Option.isSome_map]
+    simp [this]
+  | reload =>
+    obtain ⟨i, hi⟩ := Option.isSome_iff_exists.1 (hneeds (by simp [hpc])).1
+    refine ⟨.reload, ?_⟩
+    simp only [step?, stepRaw, stepT, hj, if_true, hpc, hi, Option.isSome_map]
+    (repeat' split) <;> rfl
+  | readErr =>
+    obtain ⟨i, hi⟩ := Option.isSome_iff_exists.1 (hneeds (by simp [hpc])).1
+    refine ⟨.readErr, ?_⟩
+    simp only [step?, stepRaw, stepT, hj, if_true, hpc, hi, Option.isSome_map]
+    rfl
+  | done => exact absurd hpc hnd
+
+/-! ## a handle used after its worker has finished -/
+
+/-- what a caller reads from a finished worker: no path, flags clear, the exit error -/
+theorem stepT_read {s s1 : State} {j b i} {e : Err} (h : stepT s j b = some s1)
+    (hh : (s.t j).h = some i) (hn : (s.t j).pc.needsH = true)
+    (ha : (s.w i).sh.active = none) (hp : (s.w i).pending = false)
+    (he : (s.w i).sh.error = some e) :
+    (s1.t j).h = some i ∧
+    (((s.t j).pc = .loadActive ∧ (s1.t j).pc = .lockCheck) ∨ ((s.t j).pc = .lockCheck ∧ (s1.t j).pc = .reload) ∨
+     ((s.t j).pc = .reload ∧ (s1.t j).pc = .readErr) ∨
+     ((s.t j).pc = .readErr ∧ (s1.t j).pc = .done ∧ (s1.t j).res = some (.err e)) ∨
+     (∃ g, (s.t j).pc = .waiting g)) := by
+  simp only [Worker.pending, Bool.or_eq_false_iff, Bool.not_eq_false'] at hp
+  simp only [stepT] at h
+  split at h
+  · (repeat' split at h) <;> simp_all <;> subst h <;> simp_all [Waiter.finish]
+  · simp at h
 
 end ScionVerif.Sched
